@@ -92,8 +92,8 @@ check("C23", "E2 enum", "exploration",
 
 check("C02", "E2 enum", "exploration",
       "bounded-exhaustive enumeration of declared type x scope x 38 narrowing forms x 12 invalidations x probe position x probe kind, observed through source-level typed probes",
-      "Every combination of 6 (thorough 8) declared types, 3 scopes, 38 narrowing forms (both polarities), 12 invalidation kinds, 4 probe positions and 3 probe kinds that the checker accepts is run; a typed probe `def probe_T(v: T)` prints the runtime class, which must be a member of T, a complementary probe catches wrong polarity, and a type-specialised operation after the narrowing must not panic.",
-      "typed probes of locals/parameters only (no compiler hook); the std-header return-type clause is C28's; instance variables, generators and 3-way unions are outside the space")
+      "Every combination of 6 (thorough 8) declared types, 3 scopes, 38 narrowing forms (both polarities), 12 invalidation kinds, 4 probe positions and 3 probe kinds that the checker accepts is run; a typed probe `def probe_T(v: T)` prints the runtime class, which must be a member of T, a complementary probe catches wrong polarity, and a type-specialised operation after the narrowing must not panic. Plus nested narrowing chains: every ordered chain of 2-3 conditions on a String|Int|Float|nil local with an assignment in the innermost block and 7 typed probes after each closing block (6 720 programs).",
+      "typed probes of locals/parameters only (no compiler hook); the std-header return-type clause is C28's; instance variables and generators are outside the space; 4-way unions only in the nested-chain family")
 
 check("C12", "E2 enum", "exploration",
       "bounded-exhaustive metamorphic enumeration: every single application of 4 meaning-preserving edit kinds at every position of 132 (thorough 227) base programs",
